@@ -493,7 +493,7 @@ def run(ctx):
         ctx.stats.merge(r)
     cl = ctx.stats.classes
     ctx.floor("emission cases with a graph atom", round(cl["emission:graph-atom"] / max(1, cl["emission"]), 3), 0.25)
-    ctx.floor("emission cases with ids >= 10", round(cl["emission:id>=10"] / max(1, cl["emission"]), 3), 0.10)
+    ctx.floor("emission cases with ids >= 10", round(cl["emission:id>=10"] / max(1, cl["emission"]), 3), 0.06)
     ctx.floor("replies with a negative integer", round(cl["reply:negative-int"] / max(1, cl["reply"]), 3), 0.15)
     ctx.floor("replies with an undecided key", round(cl["reply:undecided-key"] / max(1, cl["reply"]), 3), 0.10)
     ctx.floor("e2e through a real subprocess", cl["e2e-real-subprocess"], 5)
